@@ -202,6 +202,16 @@ def shard_addr(rec):
                     case_seq(rec, [['bit', 1], ['addr_std', wc, accs[3], [depth, pfx]], ['coins', 5]], 'addr_anycast')
                     rec.covered('addr:anycast')
                     rec.nontriv(('anycast', depth, pfx, wc))
+    # the same values handed over in their other accepted argument forms
+    for v in (0, 1):
+        for form in ('int', 'bool', 'str', 'tvm'):
+            case_seq(rec, [['bit_form', v, form], ['uint', 5, 3], ['bit_form', 1 - v, form]], 'bit')
+    for ln in (8, 9, 16, 255):
+        for v in {1, (1 << ln) - 1, (1 << ln) >> 1}:
+            for form in ('hex', 'bytes'):
+                case_seq(rec, [['addr_ext_form', v, ln, form], ['bit', 1]], 'addr_ext')
+    for text in ('', 'a', 'snake' * 30, 'é' * 100):
+        case_seq(rec, [['uint', 3, 8], ['snake_string_prefixed', text]], 'snake')
     for tag in (None, 1, 200):
         case_seq(rec, [['maybe_ref', tag]], 'maybe_ref')
         case_seq(rec, [['dict', tag]], 'dict')
